@@ -9,7 +9,8 @@ PROPS["C06"] = dict(
          "and B = Put/Create of a fresh record without expiry, and a Put applied between the expiry of a record and the expiry handling of a waiter parked on it: the fresh record must be there afterwards (unless a Delete that ran after it returned nil). The rediswire unit lets time pass INSIDE one call of the Redis backend: a miniredis whose TTLs are aged by the real clock (catch-up FastForward before every command "
          "and observation), the client's connection wrapped so that the k-th command of one put/putmany/create(over a record that lapses or is removed meanwhile)/cas/cas-with-forced-retry call is stalled 200-500 ms "
          "(before forwarding for TTL-free commands, before the reply otherwise; every position enumerated once + drawn pairs); the written records must be readable until 150 ms before their ExpiresAt and gone 150 ms after it "
-         "(a failure is confirmed by two re-runs with all durations doubled). non-trivial = the clock crossed an expiry and a later op was the first to touch that key (wire unit: a stall really happened inside the call before its TTL-carrying write); "
+         "(a failure is confirmed by two re-runs with all durations doubled); the same unit runs 'waitprolong' cases: a WaitForVersionChange polls a record that expires in 60-400 ms, and 1 ms after the first poll that comes less than 8-70 ms before "
+         "the expiry the record is prolonged by an hour (CasByVersion or Put) - the key exists without interruption, so the waiter must end with nil, never ErrNotExist (exact verdict, judged only if the prolongation succeeded before the expiry). non-trivial = the clock crossed an expiry and a later op was the first to touch that key (wire unit: a stall really happened inside the call before its TTL-carrying write); "
          "distinct = hash of (driver, op list); classes first_touch_expired:<kind> give the histogram of first-touching op kinds",
     assumptions=["reference model: dead(k) <=> expiry < now; a dead key is absent for every operation",
                  "in-memory backend runs on the synctest fake clock; miniredis ages TTLs only through FastForward; Redis clamps TTLs to >= 1ms so "
